@@ -292,10 +292,41 @@ class CSym(object):
                     self.guards.append(tm.mk_not(cond))
                     pushed += 1
                     continue
+                in_loop = id(n) in getattr(self, "loop_bodies", ())
+                if c.get("kind") == "IfStmt" and len(c.get("inner", [])) == 2 and \
+                        ((self._ends_with_void_return(c["inner"][1]) and not in_loop and not self.in_parallel) or (in_loop and self._ends_with_void_return(c["inner"][1], "ContinueStmt"))):
+                    # `if (cond) { ...; return; }` in a function body (early exit): the block runs under cond, the REST of the body under not(cond)
+                    cond = self.truth(self.rvalue(c["inner"][0], env, tu))
+                    if cond is not True and cond is not False:
+                        blk = [x for x in c["inner"][1].get("inner", []) if x.get("kind") not in ("NullStmt", "ReturnStmt", "ContinueStmt")] if c["inner"][1].get("kind") == "CompoundStmt" else []
+                        e1 = dict(env)
+                        self.guards.append(cond)
+                        try:
+                            for x in blk:
+                                self.exec(x, e1, tu)
+                        finally:
+                            self.guards.pop()
+                        self.guards.append(tm.mk_not(cond))
+                        pushed += 1
+                        continue
                 self.exec(c, env, tu)
         finally:
             for _ in range(pushed):
                 self.guards.pop()
+
+    @staticmethod
+    def _ends_with_void_return(n, last="ReturnStmt"):
+        """a block `{ stmts; return; }` (or `{ stmts; continue; }` with last = ContinueStmt) whose other statements contain no return / break / continue"""
+        def has_jump(x):
+            if x.get("kind") in ("ReturnStmt", "BreakStmt", "ContinueStmt", "GotoStmt"):
+                return True
+            return any(has_jump(y) for y in x.get("inner", []) if isinstance(y, dict))
+        if n.get("kind") == last:
+            return not n.get("inner")
+        if n.get("kind") != "CompoundStmt":
+            return False
+        inner = [x for x in n.get("inner", []) if x.get("kind") != "NullStmt"]
+        return bool(inner) and inner[-1].get("kind") == last and not inner[-1].get("inner") and not any(has_jump(x) for x in inner[:-1])
 
     @staticmethod
     def _only_continue(n):
